@@ -508,7 +508,14 @@ def _run_stream_exchange_sync(
         try:
             req_reader = ValidatedReader(ipc.open_stream(stream), app._server.ipc_validation)
             input_batch, custom_metadata = req_reader.read_next_batch_with_custom_metadata()
-        except pa.ArrowInvalid as exc:
+        except Exception as exc:
+            # Nothing but the caller's bytes is decoded in this block (no
+            # external fetch, no method code), so whatever the decoder raises
+            # is a malformed request.  pyarrow does not confine itself to
+            # ArrowInvalid here: a bad message header is an OSError
+            # ("Invalid IPC message: negative metadata length"), a stream
+            # that ends after its schema is a StopIteration.  Letting those
+            # escape made Falcon answer a bare JSON 500.
             raise _RpcHttpError(exc, status_code=HTTPStatus.BAD_REQUEST) from exc
 
         # Extract both tokens before resolution — resolve_external_location
